@@ -436,9 +436,47 @@ def apply_gap(out, rng):
     return out
 
 
+def apply_aliases(out, rng, prob):
+    """Write some atoms under the alternate names the topology files document (ILE CD for CD1, HN for H, 1HB for HB3,
+    O5* for O5', OW for O ...), as older / NMR / simulation-package files do."""
+    items, truth = out["items"], out["truth"]
+    blocks = _blocks(items)
+    if len(blocks) != len(truth):
+        return out
+    res, _, _ = topo.load()
+    n = 0
+    for (seg, atoms), t in zip(blocks, truth):
+        base = t["base"] if t["kind"] == "aa" else topo.NUCLEIC_BASE.get(t["resn"]) if t["kind"] == "na" else \
+            "WAT" if t["kind"] == "wat" else None
+        if base not in res or rng.random() >= prob:
+            continue
+        d = res[base]
+        inv = {}
+        for alt, canon in d.alt.items():
+            if alt not in d.atoms and len(alt) <= 4:
+                inv.setdefault(canon, []).append(alt)
+        used = {a["name"] for a in atoms}
+        for a in atoms:
+            if a["name"] in inv and rng.random() < 0.6:
+                alt = rng.choice(inv[a["name"]])
+                # never two atoms of one residue under the same written name
+                if alt in used or sum(1 for c, alts in inv.items() if alt in alts) != 1:
+                    continue
+                used.add(alt)
+                a["canonical_name"] = a["name"]
+                a["name"] = alt
+                n += 1
+    if n:
+        out["text"] = pdbfmt.to_text(items)
+        out.setdefault("meta", {})["aliases"] = n
+    return out
+
+
 def materialise(spec):
     out = _materialise(spec)
     p = spec.get("p") or {}
+    if p.get("alias_prob") and "items" in out:
+        apply_aliases(out, random.Random(spec["seed"] + 13), p["alias_prob"])
     if p.get("gap_prob") and "items" in out and random.Random(spec["seed"] + 15).random() < p["gap_prob"]:
         apply_gap(out, random.Random(spec["seed"] + 16))
     if p.get("bb_damage_prob") and "items" in out:
